@@ -338,7 +338,8 @@ def history_sig(op):
     if op.get("op") == "vario_dirs":
         return "vario_dirs:%d:%d:%s:%s%s" % (op["dim"], len(op["angles_deg"]), op["tol_deg"],
                                             op.get("masked", ""), "L" if op.get("latlon") else
-                                            ("G" if op.get("grid") else ""))
+                                            ("G" if op.get("grid") else ("F" if op.get("fourier")
+                                                                         else "")))
     if op.get("op") == "wrapper":
         s = op["size"]
         return "wrapper:%s:%d:%d:%d:%s" % (op["kernel"], s["dim"], min(s["n"], 50) // 5,
@@ -401,6 +402,18 @@ class Machine:
             size["m"] = min(size["m"], 30 if KERNELS[kernel] == "estimator" else 200)
             return {"op": "ompbuild", "kernel": kernel, "size": size,
                     "vseed": rng.randint(0, 2 ** 31), "reps": rng.choice([2, 5, 10])}
+        if r > 0.985 and rng.random() < 0.3:
+            # public Fourier generator (positions inside and outside one period, anisotropic
+            # and rotated models) against the defining sum built from its public pieces
+            dim = rng.choice([1, 2, 2, 3])
+            return {"op": "vario_dirs", "fourier": True, "dim": dim, "n": rng.randint(1, 6),
+                    "anis": [rng.choice([0.25, 0.5, 1.0, 1.8]) for _ in range(dim - 1)],
+                    "angles": [rng.choice([0.0, 0.4, 1.1]) for _ in range(dim * (dim - 1) // 2)],
+                    "period": [rng.choice([3.3, 8.0, 12.5]) for _ in range(dim)],
+                    "mode_no": [rng.choice([2, 4, 6]) for _ in range(dim)],
+                    "seed": rng.choice([1, 42, 20170519]), "vseed": rng.randint(0, 2 ** 31),
+                    "cls": rng.choice(["Gaussian", "Exponential"]),
+                    "angles_deg": [], "tol_deg": 0, "est": "matheron"}
         if r > 0.985:
             if rng.random() < 0.5:
                 return {"op": "vario_dirs", "masked": "stacked", "dim": rng.choice([1, 2, 3]),
@@ -607,7 +620,7 @@ class Machine:
         for rep in range(2):
             f = _vals(rs, (1, n))
             res = gs.vario_estimate(pos, f[0], bin_edges=edges, latlon=True, geo_scale=gsc,
-                                    return_counts=True, estimator=op["est"])
+                                    return_counts=True, estimator=_spell(op))
             ref = defining("unstructured", [f, np.linspace(0.0, 3.0, op["bins"] + 1), pos],
                            {"estimator_type": op["est"][0], "distance_type": "h"})
             self.ctx.observations += 1
@@ -633,7 +646,7 @@ class Machine:
             edges = np.linspace(0.0, 7.0, op["bins"] + 1)
             fields = [np.ma.array(data[i], mask=masks[i]) for i in range(k)]
             res = gs.vario_estimate(pos, fields, bin_edges=edges, return_counts=True,
-                                    estimator=est)
+                                    estimator=_spell(op))
             f = np.where(masks, np.nan, data)
             ref = defining("unstructured", [f, edges, pos],
                            {"estimator_type": est[0], "distance_type": "e"})
@@ -663,7 +676,7 @@ class Machine:
                 kw["no_data"] = marker
             field = np.ma.array(data, mask=mask)
             direction = ("xyz"[ax] if op.get("axis_by_name", True) else ax)
-            res = gs.vario_estimate_axis(field, direction=direction, estimator=est, **kw)
+            res = gs.vario_estimate_axis(field, direction=direction, estimator=_spell(op), **kw)
             comb = np.moveaxis((mask | miss).astype(np.uint8), ax, 0).reshape(shape[ax], -1)
             clean = np.moveaxis(np.where(mask | miss, 0.0, data), ax, 0).reshape(shape[ax], -1)
             ref = defining("ma_structured", [clean, comb], {"estimator_type": est[0]})
@@ -678,8 +691,39 @@ class Machine:
         if bad:
             raise Violation("C15.defining_sums." + name, maxdiff=maxdiff(got_v, ref[0]))
 
+    def _fourier_public(self, op):
+        import gstools as gs
+        from gstools.random import RNG
+        rs = random.Random(op["vseed"])
+        d = op["dim"]
+        model = getattr(gs, op["cls"])(dim=d, var=1.3, len_scale=1.7,
+                                       anis=list(op["anis"]) or 1.0,
+                                       angles=list(op["angles"]) or 0.0)
+        period = [float(p) for p in op["period"]]
+        srf = gs.SRF(model, generator="Fourier", period=period, mode_no=list(op["mode_no"]),
+                     seed=op["seed"])
+        top = max(period)
+        pos = _vals(rs, (d, op["n"]), -2.0 * top, 3.0 * top)
+        got = np.asarray(srf(pos.copy(), store=False), dtype=np.double)
+        gen = srf.generator
+        modes = np.asarray(gen.modes, dtype=np.double)
+        rng = RNG(op["seed"])
+        size = int(np.prod(gen.mode_no))
+        z1 = rng.random.normal(size=size)
+        z2 = rng.random.normal(size=size)
+        delta_k = 2.0 * np.pi / np.asarray(period) * np.insert(np.asarray(model.anis), 0, 1.0)
+        sf = np.sqrt(model.spectrum(np.linalg.norm(modes, axis=0)) * np.prod(delta_k))
+        ref = defining("summate_fourier", [sf, modes, z1, z2, model.isometrize(pos)], {})[0]
+        self.ctx.observations += 1
+        self.ctx.probe("wrapper.fourier_public")
+        if not close(got, ref, rtol=1e-9):
+            raise Violation("C15.defining_sums.fourier_public", maxdiff=maxdiff(got, ref),
+                            anis=op["anis"], period=period)
+
     def _vario_dirs(self, op):
         import gstools as gs
+        if op.get("fourier"):
+            return self._fourier_public(op)
         if op.get("latlon"):
             return self._vario_latlon(op)
         if op.get("masked"):
@@ -707,7 +751,7 @@ class Machine:
         tol = np.pi / 2 if op["tol_deg"] == 90 else math.radians(op["tol_deg"])
         bw = op.get("bw")
         res = gs.vario_estimate(pos, f[0], bin_edges=edges, direction=dirs, angles_tol=tol,
-                                bandwidth=bw, return_counts=True, estimator=op["est"])
+                                bandwidth=bw, return_counts=True, estimator=_spell(op))
         kw = {"angles_tol": tol, "bandwidth": -1.0 if bw is None else bw,
               "separate_dirs": False, "estimator_type": op["est"][0]}
         ref = defining("directional", [f, edges, pos, dirs], kw)
@@ -879,6 +923,12 @@ class Machine:
 
     def close(self):
         pass
+
+
+def _spell(op):
+    """The estimator name as the caller spells it (names are matched case-insensitively)."""
+    name = op["est"]
+    return {0: name, 1: name.capitalize(), 2: name.upper()}[op.get("vseed", 0) % 3]
 
 
 def signature(rec):
